@@ -323,6 +323,9 @@ def load_model(model_folder: str, model_name: str, compiler_options: Dict[str, s
     with open(db_file, "rb") as f:
         try:
             db = pickle.load(f)
+        except (pickle.UnpicklingError, EOFError):
+            # Empty or truncated file, e.g. because writing it was interrupted
+            raise InvalidCacheError("Cache file is incomplete")
         except RuntimeError as e:
             if "DeserializingStream" in str(e) or "deserialization" in str(e).lower():
                 raise InvalidCacheError("Cache generated for incompatible CasADi version")
